@@ -255,6 +255,10 @@ class SymOps:
         from .engine import V
         return z3.Function("getitem", V, V, V)(self.v(x), self.v(key))
 
+    def attr(self, x, name):
+        from .engine import V
+        return z3.Function("attr_" + name, V, V)(self.v(x))
+
     def contains(self, container, item):
         from .engine import V
         return z3.Function("contains", V, V, z3.BoolSort())(self.v(container), self.v(item))
@@ -400,6 +404,9 @@ class ConcOps:
 
     def getitem(self, x, key):
         return x[key]
+
+    def attr(self, x, name):
+        return getattr(x, name)
 
     def contains(self, container, item):
         return item in container
